@@ -4,6 +4,8 @@ import (
 	"bytes"
 	"encoding/json"
 	"fmt"
+	"github.com/ProtonMail/gluon/imap"
+	"github.com/ProtonMail/gluon/limits"
 	"sort"
 	"strconv"
 	"strings"
@@ -18,6 +20,10 @@ import (
 type C20Params struct {
 	Alphabet  []explore.Event `json:"alphabet"`
 	MaxFaults int             `json:"max_faults"`
+	// MaxMessages > 0: a per-mailbox message limit is configured (the recovery mailbox obeys it too: a rejected
+	// message is kept while there is room). FailAlways: the remote refuses every message creation.
+	MaxMessages uint32 `json:"max_messages,omitempty"`
+	FailAlways  bool   `json:"fail_always,omitempty"`
 }
 
 type c20run struct {
@@ -29,6 +35,10 @@ type c20run struct {
 	faults  int
 	broken  string
 	selName string
+	// refused: keys whose APPEND has been refused since the server (re)started. The server remembers refused
+	// messages in memory (hash set) independently of what the recovery mailbox holds; two histories that differ in
+	// it are different states even when everything observable is equal.
+	refused map[string]bool
 }
 
 const recBox = "Recovered Messages"
@@ -40,9 +50,17 @@ func NewC20(raw json.RawMessage) (explore.Run, error) {
 	if err := json.Unmarshal(raw, &p); err != nil {
 		return nil, err
 	}
-	w, err := world.New(world.Config{Hold: false})
+	cfg := world.Config{Hold: false}
+	if p.MaxMessages > 0 {
+		lim := limits.NewIMAPLimits(100, p.MaxMessages, imap.UID(1<<30), imap.UID(1<<30))
+		cfg.Limits = &lim
+	}
+	w, err := world.New(cfg)
 	if err != nil {
 		return nil, err
+	}
+	if p.FailAlways {
+		w.Users[0].Conn.Sticky = map[string]string{"CreateMessage": "fail"}
 	}
 	r := &c20run{p: p, w: w, boxes: map[string][]string{"INBOX": nil, "other": nil}}
 	sp := vconn.Spec{Kind: "MailboxCreated", Mbox: "mb-other", Name: []string{"other"}}
@@ -113,6 +131,9 @@ func (r *c20run) Step(ev explore.Event) []explore.Violation {
 		if q := conn.Faults[kind]; len(q) > 0 {
 			return q[0]
 		}
+		if a, ok := conn.Sticky[kind]; ok {
+			return a
+		}
 		return "ok"
 	}
 	switch ev.K {
@@ -128,6 +149,7 @@ func (r *c20run) Step(ev explore.Event) []explore.Violation {
 		if err := r.open(); err != nil {
 			r.broken = err.Error()
 		}
+		r.refused = nil
 	case "append":
 		box, key := ev.A, ev.B
 		answer := pendingFault("CreateMessage")
@@ -163,6 +185,10 @@ func (r *c20run) Step(ev explore.Event) []explore.Violation {
 				}
 			}
 		default: // NO / BAD
+			if r.refused == nil {
+				r.refused = map[string]bool{}
+			}
+			r.refused[key] = true
 			switch answer {
 			case "ok":
 				out = append(out, r.viol("append-refused", "APPEND", "the remote accepts the message but APPEND answered "+res.Tagged.Text))
@@ -173,6 +199,10 @@ func (r *c20run) Step(ev explore.Event) []explore.Violation {
 					if k == key {
 						have = true
 					}
+				}
+				if !have && r.p.MaxMessages > 0 && len(r.rec) >= int(r.p.MaxMessages) {
+					// the recovery mailbox is full: the limit wins, the client has been told NO
+					break
 				}
 				if !have {
 					r.rec = append(r.rec, key)
@@ -342,7 +372,12 @@ func (r *c20run) Canon() string {
 		return "DBERR"
 	}
 	d, _ := r.w.DumpOf(r.o)
-	return fmt.Sprintf("%s\nmodel %v rec %v faults=%d sel=%s dead=%v n=%d\n%s", v.Canon(), r.boxes, r.rec, r.faults, r.selName, r.o.Dead, len(d.Msgs), r.w.Users[0].Conn.Canon())
+	var ref []string
+	for k := range r.refused {
+		ref = append(ref, k)
+	}
+	sort.Strings(ref)
+	return fmt.Sprintf("%s\nmodel %v rec %v faults=%d sel=%s dead=%v n=%d refused=%v\n%s", v.Canon(), r.boxes, r.rec, r.faults, r.selName, r.o.Dead, len(d.Msgs), ref, r.w.Users[0].Conn.Canon())
 }
 
 func (r *c20run) Extensions() []explore.Violation { return nil }
